@@ -1,7 +1,200 @@
-//! C05 — not built yet (stub keeps the registry stable while modules are written in parallel).
+//! C05 — compile-time state layout matches run-time state accesses.
 
-use crate::engine::case::Prop;
+use crate::engine::case::*;
+use crate::engine::rng::hash64;
+use crate::engine::tape::Gen;
+use crate::gens::prog::{self, Layout, PG};
+use crate::props::c01::{self, gen_inputs, line_candidates};
+use crate::runners::exec::{self, canon, Exec, Inputs, RunOpts};
+use serde_json::{json, Value};
+
+pub struct C05;
 
 pub fn prop() -> Option<&'static dyn Prop> {
-    None
+    Some(&C05)
+}
+
+/// lambdas inside functions that own state: the WASM runtime keeps closure-related words in the
+/// dsp state (known finding), so state words differ although samples agree
+pub const KF_WASM_CLOSURE_WORDS: &str = "C05-wasm-closure-words-in-state";
+
+struct Out {
+    fail: Option<(String, String)>,
+    leaves: usize,
+    calls: usize,
+    accesses: usize,
+    compiled: bool,
+}
+
+fn check(src: &str, inputs: &Inputs, n: u64) -> Out {
+    let mut o = Out { fail: None, leaves: 0, calls: 0, accesses: 0, compiled: false };
+    macro_rules! fail {
+        ($sig:expr, $($arg:tt)*) => {{ o.fail = Some((format!("c05:{}", $sig), format!($($arg)*))); return o; }};
+    }
+    let opts = RunOpts { n, sched: false, want_state: true, want_counts: false, want_trace: true };
+    let vm = exec::run_vm(src, inputs, &opts);
+    let a = match vm {
+        Exec::Rejected(_) | Exec::NoIo => return o,
+        Exec::Panic(stage, p) => {
+            if p.msg.contains("verif-hooks: state") {
+                fail!(if p.msg.contains("cursor underflow") || p.msg.contains("cursor overflow") { "cursor-out-of-range" } else { "access-outside-storage" }, "VM {stage}: {}", p.msg);
+            }
+            // other crashes are C03's subject
+            return o;
+        }
+        Exec::Error(..) => return o,
+        Exec::Ran(a) => a,
+    };
+    o.compiled = true;
+    o.leaves = a.leaves.len();
+    o.calls = a.skeleton_calls;
+    let total = a.skeleton_words.unwrap_or(0) as usize;
+    for (t, tr) in a.trace.iter().enumerate() {
+        if a.storage_len.get(t).copied().unwrap_or(total) != total {
+            fail!("storage-size", "sample {t}: dsp state storage has {} words, the published layout {total}", a.storage_len[t]);
+        }
+        if a.cursor.get(t).copied().unwrap_or(0) != 0 {
+            fail!("cursor-not-reset", "sample {t}: state cursor is {} after dsp returned", a.cursor[t]);
+        }
+        for (kind, global, pos, size) in tr {
+            if !*global {
+                continue; // closure-owned storages are only bounds-checked by the hook
+            }
+            o.accesses += 1;
+            let ok = a.leaves.iter().any(|(off, sz, lk)| {
+                off == pos
+                    && sz == size
+                    && match (lk, kind) {
+                        (0, 0) | (0, 1) => true, // feed cell: read and write of the whole cell
+                        (1, 1) | (1, 0) => true, // mem cell
+                        (2, 2) => true,          // delay: ring buffer of len + 2 words
+                        _ => false,
+                    }
+            });
+            if !ok {
+                let k = ["read", "write", "ring-buffer"][*kind as usize % 3];
+                fail!(format!("access-not-a-layout-cell:{k}"), "sample {t}: {k} of {size} words at cursor {pos} matches no cell of the published layout {:?}", a.leaves);
+            }
+        }
+    }
+    // VM words == WASM words (zero-extended) after every sample
+    let wa = exec::run_wasm(src, inputs, &RunOpts { n, sched: false, want_state: true, want_counts: false, want_trace: false });
+    if let Exec::Ran(b) = wa {
+        for (t, (x, y)) in a.state.iter().zip(b.state.iter()).enumerate() {
+            if y.len() > total {
+                fail!("wasm-state-larger-than-layout", "sample {t}: WASM state has {} words, the published layout {total}", y.len());
+            }
+            for i in 0..x.len().max(y.len()) {
+                let xv = x.get(i).copied().unwrap_or(0);
+                let yv = y.get(i).copied().unwrap_or(0);
+                if canon(xv) != canon(yv) {
+                    fail!("state-words-differ", "after sample {t}: state word {i} vm {xv:#x} wasm {yv:#x}");
+                }
+            }
+        }
+    }
+    o
+}
+
+fn finish(src: &str, inputs: &Inputs, n: u64, classes: Vec<String>, cx: &Cx) -> CaseResult {
+    let key = format!("{src}\u{1}{}\u{1}{n}", inputs.describe());
+    let hash = hash64(key.as_bytes());
+    let direct = json!({"text": src, "input_kind": inputs.kind, "input_scale": inputs.scale, "n": n});
+    if cx.dry {
+        let mut r = CaseResult::discard("dry");
+        r.render = Some(direct.clone());
+        r.direct = Some(direct);
+        return r;
+    }
+    let o = check(src, inputs, n);
+    let mut r = match &o.fail {
+        Some((s, m)) => CaseResult::fail(hash, s.clone(), m.clone()),
+        None => CaseResult::held(hash),
+    };
+    r.classes = classes;
+    if o.compiled {
+        r.classes.push("compiled".into());
+    }
+    if o.leaves >= 2 {
+        r.classes.push("layout:>=2-cells".into());
+    }
+    if o.calls >= 1 {
+        r.classes.push("layout:nested-call".into());
+    }
+    r.nontrivial = (o.leaves >= 2 && o.calls >= 1 && o.accesses > 0) || r.is_fail();
+    if cx.render || r.is_fail() {
+        r.render = Some(json!({"text": src, "inputs": inputs.describe(), "n": n, "cells": o.leaves, "accesses": o.accesses}));
+    }
+    r.direct = Some(direct);
+    r
+}
+
+impl Prop for C05 {
+    fn id(&self) -> &'static str {
+        "C05"
+    }
+    fn spaces(&self, tier: Tier) -> Vec<Space> {
+        match tier {
+            Tier::Quick => vec![Space { name: "gen", size: 3000, exhaustive: false, chunk: 60, case_timeout_s: 60.0, what: "generated programs biased to stateful call trees x run lengths" }],
+            Tier::Thorough => vec![Space { name: "gen", size: 120_000, exhaustive: false, chunk: 200, case_timeout_s: 60.0, what: "generated programs biased to stateful call trees x run lengths" }],
+        }
+    }
+    fn run(&self, _space: &str, _index: u64, g: &mut Gen, cx: &Cx) -> CaseResult {
+        let (mut cfg, off) = c01::pcfg(cx);
+        cfg.max_fns = 6;
+        cfg.records = false;
+        let no_lambda = cx.excluded(KF_WASM_CLOSURE_WORDS);
+        if no_lambda {
+            cfg.closures = false;
+            cfg.hof = false;
+            cfg.makers = false;
+        }
+        let mut pg = PG::new(g, cfg);
+        let p = pg.program();
+        let feat = pg.feat.clone();
+        let src = prog::render(&p, &Layout::default());
+        let inputs = gen_inputs(g);
+        let n = *g.pick(&[8u64, 4, 16, 3, 32, 64]);
+        let mut r = finish(&src, &inputs, n, feat.classes(), cx);
+        for id in off {
+            r.count(&format!("generator_switch_off:{id}"), 1);
+        }
+        if no_lambda {
+            r.count(&format!("generator_switch_off:{KF_WASM_CLOSURE_WORDS}"), 1);
+        }
+        r
+    }
+    fn run_direct(&self, input: &Value, cx: &Cx) -> Option<CaseResult> {
+        let t = input.get("text")?.as_str()?;
+        let inputs = Inputs { kind: input.get("input_kind").and_then(|v| v.as_u64()).unwrap_or(1) as u8, scale: input.get("input_scale").and_then(|v| v.as_f64()).unwrap_or(1.0) };
+        let n = input.get("n").and_then(|v| v.as_u64()).unwrap_or(8);
+        Some(finish(t, &inputs, n, vec![], cx))
+    }
+    fn shrink_direct(&self, input: &Value) -> Vec<Value> {
+        let Some(t) = input.get("text").and_then(|v| v.as_str()) else { return vec![] };
+        let mut out = vec![];
+        let n = input.get("n").and_then(|v| v.as_u64()).unwrap_or(8);
+        for m in [n / 2, n - 1] {
+            if m >= 1 && m < n {
+                let mut v = input.clone();
+                v["n"] = json!(m);
+                out.push(v);
+            }
+        }
+        for s in line_candidates(t).into_iter().chain(crate::engine::shrink::text_candidates(t)) {
+            let mut v = input.clone();
+            v["text"] = json!(s);
+            out.push(v);
+        }
+        out
+    }
+    fn rule(&self) -> String {
+        "Cases are (program, input stream, run length) from the core-language generator with up to 6 helper functions, nested stateful calls, the same function at several sites, tuple-valued self and delays of different sizes. Oracle (VM, with the access-recording hook): every read/write/ring-buffer access on the dsp state storage coincides exactly (offset and size, compatible kind) with a leaf of Program::get_dsp_state_skeleton(); the storage length equals the layout's total size; the state cursor is 0 after every dsp call; cursor moves never under/overflow and no access leaves the storage (hook assertions). After every sample the VM state words equal the WASM state words zero-extended, and the WASM state never exceeds the layout size. Non-trivial = layout with >= 2 cells and a nested call, with >= 1 recorded access; distinct by source+inputs+length.".into()
+    }
+    fn assumptions(&self) -> Vec<String> {
+        vec!["accesses on closure-owned storages are only bounds-checked (hook assertion), not matched against the closure's own layout".into(), "a VM crash that is not a state-bounds assertion is left to C03".into()]
+    }
+    fn required_classes(&self, _tier: Tier) -> Vec<&'static str> {
+        vec!["compiled", "layout:>=2-cells", "layout:nested-call", "f:tuple-self", "f:delay", "f:same-fn-many-sites", "f:nested-stateful"]
+    }
 }
